@@ -478,6 +478,9 @@ func replayMain[C any](t *testing.T, spec Spec[C], path string) {
 	}
 	out := map[string]any{"property": spec.ID, "path": path, "expected": rf.Violation, "got": res.V,
 		"sched_hash_expected": rf.SchedHash, "sched_hash_got": fmt.Sprintf("%x", res.SchedHash), "trace": tail(res.Trace, 400)}
+	if tf := os.Getenv("KEVOSIM_TRACEFILE"); tf != "" {
+		os.WriteFile(tf, []byte(strings.Join(res.Trace, "\n")), 0644)
+	}
 	ob, _ := json.MarshalIndent(out, "", " ")
 	if op := os.Getenv("KEVOSIM_OUT"); op != "" {
 		os.WriteFile(op, ob, 0644)
